@@ -40,7 +40,7 @@ type options struct {
 
 func parseArgs(args []string) (*config, *options) {
 	cfg := &config{seed: vh.Seed(), maxLen: vh.Pick(600, 4096), truncAll: vh.Tier() == "thorough"}
-	o := &options{n: int64(vh.Pick(40000, 1200000)), src: vh.RepoRoot(), replay: -1}
+	o := &options{n: boundaryBase() + int64(vh.Pick(7000, 200000)), src: vh.RepoRoot(), replay: -1}
 	for _, a := range args {
 		switch {
 		case strings.HasPrefix(a, "iter="):
@@ -265,7 +265,7 @@ type task struct{ from, to int64 }
 // Run is the `api-fuzz` command.
 func Run(args []string) {
 	cfg, o := parseArgs(args)
-	rep := vh.NewReport("api-fuzz", fmt.Sprintf("root schema, 0-3 added user types (+ fixed @k, optionally the regex type as @rg), enum rule, regex type, JSON document, each under its own file name (the empty name included); streams: byte-level mutation of %d embedded seeds (1-3 edits: truncate/insert/delete/replace over a %d-byte alphabet), grammar-aware generated schemas (rules, annotations, comments, shortcuts, key shortcuts, allOf between objects and added types with shared key pools, or-types referring to each other; schema's own example as document), truncation at every offset of the seeds/%d generated schemas/%d corpus sets of %s/testdata (%d cases; all of them in the thorough tier), corpus sets with mutations, large inputs up to %d bytes; regex types with one special atom (a control character, DEL, an invalid UTF-8 byte or a non-printable rune, which Go's %%q spells unlike JSON, quantified so that the example may omit it) in one iteration of six; every public method of jschema.Schema, regex.Schema, enum.Enum, json.Document under recover and a %v deadline; every error also through kit.ConvertError for the caller holding the root file, the file the error names and one more source in turn: the result names the caller's file or a source with the position inside it, and a result presenting the positioned error keeps that error's file and position; in child processes so that a fatal runtime error is attributed to its iteration; per-iteration PRNG from (VERIF_SEED, iteration)", len(rootSeeds)+len(typeSeeds)+len(enumSeeds)+len(regexSeeds)+len(docSeeds), len(alphabet), len(cfg.generated), len(cfg.corpus), o.src, len(cfg.trunc), cfg.maxLen, callDeadline))
+	rep := vh.NewReport("api-fuzz", fmt.Sprintf("root schema, 0-3 added user types (+ fixed @k, optionally the regex type as @rg), enum rule, regex type, JSON document, each under its own file name (the empty name included); streams: byte-level mutation of %d embedded seeds (1-3 edits: truncate/insert/delete/replace over a %d-byte alphabet), grammar-aware generated schemas (rules, annotations, comments, shortcuts, key shortcuts, allOf between objects and added types with shared key pools, or-types referring to each other; schema's own example as document), truncation at every offset of the seeds/%d generated schemas/%d corpus sets of %s/testdata (%d cases; all of them in the thorough tier), corpus sets with mutations, large inputs up to %d bytes, and (the last 7000 iterations; 200000 in the thorough tier) well-formed annotated schemas of every node kind and placement - top level, property, item, nested, item object of an or rule; inline and multi-line annotation - in which ONE rule value is a boundary value of its kind (names: empty, blank, \"@\", \"#\", one byte, escapes, unions with an empty side; numbers: 0, -0, 0.0, 1e0, range neighbours, huge, tiny; lists: [], [\"\"], [[]]; booleans: both and their quoted spellings; enum references: @, unknown; a value of another kind), likewise in an added type, in the text of the enum rule and in the document, boundary spellings of property names / key shortcuts; regex types with one special atom (a control character, DEL, an invalid UTF-8 byte or a non-printable rune, which Go's %%q spells unlike JSON, quantified so that the example may omit it) in one iteration of six; every public method of jschema.Schema, regex.Schema, enum.Enum, json.Document under recover and a %v deadline; every error also through kit.ConvertError for the caller holding the root file, the file the error names and one more source in turn: the result names the caller's file or a source with the position inside it, and a result presenting the positioned error keeps that error's file and position; in child processes so that a fatal runtime error is attributed to its iteration; per-iteration PRNG from (VERIF_SEED, iteration)", len(rootSeeds)+len(typeSeeds)+len(enumSeeds)+len(regexSeeds)+len(docSeeds), len(alphabet), len(cfg.generated), len(cfg.corpus), o.src, len(cfg.trunc), cfg.maxLen, callDeadline))
 	rep.Extra["corpus_sets"] = strconv.Itoa(len(cfg.corpus))
 	rep.Extra["trunc_cases"] = strconv.Itoa(len(cfg.trunc))
 	if len(cfg.corpus) == 0 {
